@@ -128,6 +128,58 @@ def shard(ctx: Ctx, framing: str = "plain", prop: str = "C01") -> None:
                                       f"keys {keys} ({len(keys)} of {behind})", case, trace=sim.trace(30))
                     else:
                         res.count("S/frames_delivered_and_checked", len(keys))
+    # (d) a subscriber that is not instant (a database write, a slow log sink: 0.5 / 5 / 30 ms of the process's monotonic clock per state) and a
+    #     device that sends a burst of states in ONE chunk and then stays / says goodbye / closes / dies: every frame of the chunk was complete
+    #     when the chunk arrived, so every one is handed over inside that same read (same loop iteration), however long the handling takes
+    for per_state in (0.0005, 0.005, 0.03):
+        for n in (8, 40):
+            for ending in ("stays", "eof", "bye+eof", "rst"):
+                idx += 1
+                if not ctx.mine(idx):
+                    continue
+                with Sim() as sim:
+                    try:
+                        cli, dconn, got = session(sim, None, framing)
+                    except RuntimeError as e:
+                        res.inconclusive.append(f"{prop} part S: {e}")
+                        continue
+                    seen: list[tuple[int, int]] = []      # (key, loop iteration in which it was handed over)
+
+                    def slow(state: Any, sim: Sim = sim, seen: list[tuple[int, int]] = seen, per_state: float = per_state) -> None:
+                        seen.append((state.key, len(sim.iter_info)))
+                        sim.burn(per_state)
+
+                    cli.subscribe_states(slow)
+                    sim.run_for(0.001)
+                    t0 = sim.clock
+                    dconn.outbox = []
+                    for k in range(n):
+                        dconn.send_msg(pb.SensorStateResponse(key=500 + k, state=3.0))
+                    if ending == "bye+eof":
+                        dconn.send_msg(pb.DisconnectRequest())
+                    out_, dconn.outbox = dconn.outbox, None
+                    dconn.deliver_items(out_, 0.0)
+                    if ending in ("eof", "bye+eof"):
+                        dconn.eof(0.0)
+                    elif ending == "rst":
+                        dconn.rst(0.0)
+                    sim.run_for(5.0)
+                    res.evaluations += 1
+                    res.count(f"S/slow-subscriber-burst/{ending}")
+                    res.count("S/slow-subscriber-burst/ms-of-process-clock-spent-inside-one-read", int(1000 * per_state * len(seen)))
+                    res.sig("S-slow-subscriber", per_state, n, ending)
+                    keys = [k for k, _ in seen]
+                    iters = sorted({i for _, i in seen})
+                    case = {"part": "S", "slow_subscriber_seconds_per_state": per_state, "states_in_one_chunk": n, "then": ending, "framing": framing}
+                    if keys != [500 + k for k in range(n)]:
+                        res.violation(f"{prop}/S/frames-lost-behind-slow-subscriber", f"one chunk of {n} state frames, subscriber takes {per_state * 1000:g} ms per state, "
+                                      f"device then {ending}: delivered {len(keys)} of {n} (keys {keys[:4]}..{keys[-2:]})", case, trace=sim.trace(30))
+                    elif len(iters) != 1:
+                        res.violation(f"{prop}/S/complete-frames-left-for-a-later-iteration", f"one chunk of {n} complete state frames (arrived at t={t0:.6f}), subscriber "
+                                      f"takes {per_state * 1000:g} ms per state: handed over in {len(iters)} different loop iterations {iters[:6]} instead of "
+                                      f"the one that read the chunk", case, trace=sim.trace(30))
+                    else:
+                        res.count("S/frames_delivered_and_checked", len(keys))
     # (b) the client answers from inside the read loop (PingRequest -> PingResponse) while its own write buffer is full up to the transport's
     #     high-water mark (a device that reads slowly): whatever flow control does with that write, the frames behind the PingRequest in the same
     #     chunk are complete and must be handed over
